@@ -32,6 +32,7 @@ Fails(c, s) ==
     [] c.kind = "ttcode"  -> C01TTCodeFails(c)
     [] c.kind = "hist"    -> HistFails(c, s)
     [] c.kind = "partial" -> C15Fails(c)
+    [] c.kind = "minimize" -> C04Fails(c)
     [] c.kind = "arith"   -> ArithFails(c)
     [] c.kind = "synth"   -> C06Fails(c)
     [] c.kind = "codec"   -> C16CodecFails(c)
